@@ -31,6 +31,7 @@ func drawConfig(rt *rapid.T) cbConfig {
 		fine:         rapid.Bool().Draw(rt, "fine"),
 		sideEffects:  rapid.IntRange(0, 3).Draw(rt, "side-effects") == 0,
 		fallbackKind: rapid.IntRange(0, 2).Draw(rt, "fallback-kind"),
+		slowLogger:   rapid.IntRange(0, 2).Draw(rt, "slow-logger") == 0,
 	}
 }
 
